@@ -14,6 +14,14 @@ CHECKS = {
         "either value). Entities with nil Properties are outside the alphabet. Depth-bounded (quick 4, thorough 6).",
    technique="explicit-state BFS over real objects (history replay) with delta-replay oracle",
    design_ref="4/C12"),
+ "C13": dict(level="model_checking", engine="E2 bfs + E1 sched",
+   text="Explicit-state breadth-first search over operation histories (Add/CheckedAdd/Remove/Clear/Clone/Or/And/AndNot/Xor and operand edits) on a "
+        "receiver and an operand for every ordered pairing of {bitmap, threadSafe(bitmap)} at both widths, over value windows straddling the 2^16, 2^32 "
+        "and 2^48 boundaries with dense blocks that force bitmap containers; after every step every read (Cardinality, Slice, Contains, Each incl. early stop) "
+        "of receiver and operand must equal a map-based set.",
+   note="Trusted: canonical state = serialised roaring layout of both providers + reference sets. Depth-bounded (quick 4, thorough 7).",
+   technique="explicit-state BFS over real objects (history replay) against a set reference model",
+   design_ref="4/C13"),
  "C16": dict(level="model_checking", engine="E2 bfs + E1 sched",
    text="Explicit-state breadth-first search over every Put/Get/Delete history on the real SIEVE and non-expiring caches "
         "(4 keys, capacities -1..4) until the reachable state space closes, comparing each step with a reference map and "
